@@ -17,7 +17,7 @@ EXPLANATION = (
     "(bom_sniffing ∧ slice_has_bom) and slice_has_bom accepts exactly UTF-16LE, UTF-16BE, UTF-8; (CONFIG) the decoder "
     "is built with encoding = config encoding, utf8_passthru(true), strip_bom(bom_sniffing), bom_override(true), "
     "bom_sniffing(bom_sniffing); (CLI) --encoding auto/label/none wiring and setters. encoding_rs's transcoding itself "
-    "and fragmentation across the 8 KiB buffer are not decided.")
+    "and fragmentation across the 8 KiB buffer are not decided. The decoded stream is read to its end: no Read::take bound may cut it.")
 NOT_DECIDED = ["encoding_rs / encoding_rs_io transcoding itself", "fragmentation across the 8 KiB transcoding buffer"]
 
 S = "grep_searcher::searcher::Searcher"
